@@ -184,8 +184,7 @@ Init == /\ t \in DOMAIN Traces
 Step ==
   /\ l < Len(Tr.steps)
   /\ LET st == Tr.steps[l + 1]
-         Sn == IF Tr.mode # "exact" \/ IsQuery(st) THEN S
-               ELSE [L \in Langs |-> [S[L] EXCEPT ![st.r] = Target(L, st)]]
+         Sn == S'      \* S' is assigned first (below): an explicit value, not a lazily re-evaluated function
          tainted(d) == \E q \in Sources(st) : <<d, q>> \in bad
          raw(d) == IF Tr.mode = "exact" THEN Judge(st, Tr.obs[d].steps[l + 1], Sn[Tr.obs[d].lang])
                    ELSE IF BasesOf(d) = {} THEN "ok" ELSE LiftJudge(d, l + 1)
@@ -200,7 +199,8 @@ Step ==
                            THEN IF PrintT(<<"KNOWN", KnownSigs[CHOOSE k \in KnownFor(Tr.obs[d].dom, st, j) : TRUE].id,
                                             Tr.id, l + 1, Tr.obs[d].dom, j>>) THEN "known" ELSE "known"
                            ELSE IF PrintT(<<"FAIL", Tr.id, l + 1, Tr.obs[d].dom, j, wit(d)>>) THEN j ELSE j]
-     IN /\ S' = Sn
+     IN /\ S' = IF Tr.mode # "exact" \/ IsQuery(st) THEN S
+                 ELSE [L \in Langs |-> [S[L] EXCEPT ![st.r] = Target(L, st)]]
         /\ verdict' = v
         /\ bad' = IF IsQuery(st) THEN bad
                   ELSE (bad \ {<<d, st.r>> : d \in Doms})
